@@ -122,19 +122,19 @@ MAIN_LAYOUTS = ['v19', 'v20', 'v21', 'v21_l4d2', 'v22', 'v25', 'v43']
 # (no public description exists) srctools' own table for VitaminSource.
 _STD = dict(
     face='<HBBihhhh4sif2i2iiHHI', faceid='<H', edge='<HH', prim='<HHHHH', primidx='<H',
-    node='<iii6hHHh2x', leaf='<ihh6h4Hh2x', leafface='<H', leafbrush='<H', area_off=7,
+    node='<iii6hHHh2x', leaf='<Ihh6h4Hh2x', leafface='<H', leafbrush='<H', area_off=7,
     water='<ffH2x', side='<HhhH', propleaf='<H', ambient=False, leaf_float=False,
 )
 FAM = {
     'std': _STD,
-    'v19': dict(_STD, leaf='<ihh6h4Hh24s2x', ambient=True),
+    'v19': dict(_STD, leaf='<Ihh6h4Hh24s2x', ambient=True),
     'infra': dict(_STD, prim='<IIIHH'),
     'chaos': dict(
         _STD, face='<IBB2x5i4sif2i2ii3I', faceid='<I', edge='<II', prim='<5I', primidx='<I',
-        node='<iii6fIIh2x', leaf='<iii6f4Ii', leafface='<I', leafbrush='<I', area_off=17,
+        node='<iii6fIIh2x', leaf='<Iii6f4Ii', leafface='<I', leafbrush='<I', area_off=17,
         water='<ffI', side='<IiiH2x', propleaf='<I', leaf_float=True,
     ),
-    'vitamin': dict(_STD, leaf='<ihh6I4HhBx', face='<5i4iB3x', side='<IIhBB', node='<iii6iHHh2x'),
+    'vitamin': dict(_STD, leaf='<Ihh6I4HhBx', face='<5i4iB3x', side='<IIhBB', node='<iii6iHHh2x'),
 }
 assert struct.calcsize(_STD['face']) == 56 and struct.calcsize(FAM['chaos']['face']) == 72
 assert struct.calcsize(FAM['chaos']['leaf']) == 56 and struct.calcsize(_STD['leaf']) == 32
@@ -744,7 +744,7 @@ def encode_world(w: dict) -> tuple[dict[int, dict], list[dict]]:
         d[L['TEXDATA']] = b''.join(struct.pack('<3f3i', *t) for t in w['texdata'])
     else:
         d[L['TEXDATA']] = b''.join(struct.pack('<3f5i', *t, t[4], t[5]) for t in w['texdata'])
-    d[L['TEXINFO']] = b''.join(struct.pack('<16fii', *fl, flags, td) for fl, flags, td in w['texinfo'])
+    d[L['TEXINFO']] = b''.join(struct.pack('<16fIi', *fl, flags, td) for fl, flags, td in w['texinfo'])
     # primitives
     pv = bytearray()
     pi_ = []
@@ -768,7 +768,7 @@ def encode_world(w: dict) -> tuple[dict[int, dict], list[dict]]:
     br = bytearray()
     nsides = 0
     for contents, ss in w['brushes']:
-        br += struct.pack('<iii', nsides, len(ss), contents)
+        br += struct.pack('<iiI', nsides, len(ss), contents)
         for plane, ti, disp, bevel, extra in ss:
             if vit:
                 sides += struct.pack(F['side'], plane, ti, disp, bevel & 0xFF, extra & 0xFF)
@@ -939,7 +939,7 @@ def world_strategy(tier: str, layouts: Optional[list[str]] = None, rich: bool = 
     ibound = st.integers(-16384, 16384)
     vec = st.tuples(f, f, f).map(list)
     ivec = st.tuples(ibound, ibound, ibound).map(list)
-    flags31 = biased(0, 0x7FFFFFFF, [0, 1, 0x4000, 0x40000000, 0x7FFFFFFF])
+    flags31 = biased(0, 0xFFFFFFFF, [0, 1, 0x4000, 0x40000000, 0x7FFFFFFF, 0x80000000, 0xFFFFFFFF])  # 32-bit flag words
     name = st.text('ABCXYZ_/0189', min_size=1, max_size=12)
     longname = st.one_of(name, st.integers(100, 127).map(lambda n: ('LONG/' * 30)[:n]))
     mdl = st.one_of(
